@@ -464,8 +464,9 @@ def custom_alphabet(fundamental="012", codes=True):
     sa = dendropy.new_standard_state_alphabet(fundamental)
     if codes:
         p = sa.new_ambiguous_state("P", member_state_symbols="01")
-        sa.new_ambiguous_state("Q", member_states=[p, sa["2"]])
-        sa.new_polymorphic_state("R", member_states=[sa["2"], p])
+        # (member_states is documented as an iterable: a generator and an iterator here, lists elsewhere)
+        sa.new_ambiguous_state("Q", member_states=(x for x in [p, sa["2"]]))
+        sa.new_polymorphic_state("R", member_states=iter([sa["2"], p]))
         sa.new_polymorphic_state("W", member_state_symbols="12")
     sa.compile_lookup_mappings()
     return sa
@@ -554,13 +555,39 @@ def _w_custom(task):
                         if got != sum(want) or list(sbc) != want:
                             acc.fail("parsimony_score[two-state-alphabet].minimum", key, "%s(allow_gaps=%r, allow_missing=%r), gaps_as_missing=%r: score %r (per character %r); "
                                      "the minimum number of changes is %r" % (cname, ag, am, gap, got, sbc, want), witness, n)
+    # (d) a two-state alphabet with a gap and NO missing-data state that grows: the gap read as missing stands for the states the alphabet has NOW
+    if first in "012-":
+        for rest in itertools.product("012-", repeat=n - 1):
+            col2 = (first,) + rest
+            rows2 = dict((lab, col2[i]) for i, lab in enumerate(labels))
+            rows1 = dict((lab, "0-1"[i % 3]) for i, lab in enumerate(labels))
+            for gap in (True, False):
+                kind, t = forms[0]
+                tstr = P.tree_str(t)
+                key = "grown-gap-only-alphabet|gap_missing=%d|tree=%s|first=%s|then=%s" % (gap, tstr, rows_str(rows1), rows_str(rows2))
+                witness = dict(custom="grown-gap-only", gap=gap, tree=tstr, rows=rows_str(rows2), first=rows_str(rows1))
+                want = custom_min(t, rows2, "012", gap)
+                acc.case(key, want[0] >= 1)
+                try:
+                    sa4 = CSM.BinaryStateAlphabet(allow_gaps=True, allow_missing=False)
+                    tree = build(t, taxa)
+                    _custom_score(tree, taxa, rows1, sa4, gap)
+                    sa4.new_fundamental_state("2")
+                    sa4.compile_lookup_mappings()
+                    got, sbc = _custom_score(tree, taxa, rows2, sa4, gap)
+                except Exception as e:
+                    acc.fail("parsimony_score[grown-alphabet].raises", key, "%s: %s" % (type(e).__name__, e), witness, n)
+                    continue
+                if got != sum(want):
+                    acc.fail("parsimony_score[grown-alphabet].history", key, "a two-state alphabet with a gap and no missing-data state: after scoring %s and adding the state 2, "
+                             "%s scores %r; the minimum number of changes (with - = %s) is %r" % (rows_str(rows1), rows_str(rows2), got, "any of 0,1,2" if gap else "a state of its own", want), witness, n)
     # (b) one tree, one alphabet object: score over {0,1,?}, add the fundamental state 2, score a matrix that uses 2 and ?
-    for rest in itertools.product("012?", repeat=n - 1):
-        if first not in "012?":
+    for rest in itertools.product("012?-", repeat=n - 1):
+        if first not in "012?-":
             break
         col2 = (first,) + rest
         rows2 = dict((lab, col2[i]) for i, lab in enumerate(labels))
-        rows1 = dict((lab, "01?"[i % 3]) for i, lab in enumerate(labels))
+        rows1 = dict((lab, "0-?"[i % 3]) for i, lab in enumerate(labels))   # the first scoring call sees a gap and a missing cell
         for gap in (True, False):
             kind, t = forms[0]
             tstr = P.tree_str(t)
@@ -721,6 +748,14 @@ def replay(ctx, rec):
         want = custom_min(t, rows, "012", w["gap"])
         if w["custom"] == "codes":
             got, sbc = _custom_score(build(t, taxa), taxa, rows, custom_alphabet(), w["gap"])
+        elif w["custom"] == "grown-gap-only":
+            from dendropy.datamodel import charstatemodel as CSM
+            sa4 = CSM.BinaryStateAlphabet(allow_gaps=True, allow_missing=False)
+            tree = build(t, taxa)
+            _custom_score(tree, taxa, parse_rows(w["first"]), sa4, w["gap"])
+            sa4.new_fundamental_state("2")
+            sa4.compile_lookup_mappings()
+            got, sbc = _custom_score(tree, taxa, rows, sa4, w["gap"])
         elif w["custom"] == "two-state":
             from dendropy.datamodel import charstatemodel as CSM
             want = custom_min(t, rows, "01", w["gap"])
